@@ -193,6 +193,13 @@ class Engine:
             if isinstance(e.op, ast.Add): return Sym(TInt, l.term + r.term)
             if isinstance(e.op, ast.Sub): return Sym(TInt, l.term - r.term)
             if isinstance(e.op, ast.Mult): return Sym(TInt, l.term * r.term)
+        if isinstance(e.op, ast.Add) and isinstance(l.t, TSeq) and l.t == r.t:          # list + list, both read as sequences
+            new = Concat(l.term, r.term); jq = Const(fresh_name('cj'), IntSort()); nl = Length(l.term)
+            # theory-valid pointwise facts (the solver does not unfold seq.++ under quantifiers); the second one is indexed by the position in the result
+            if getattr(self.w, 'concat_facts', False):
+                st.pc.append(And(Length(new) == nl + Length(r.term), ForAll([jq], Implies(And(0 <= jq, jq < nl), new[jq] == l.term[jq])),
+                                 ForAll([jq], Implies(And(nl <= jq, jq < nl + Length(r.term)), new[jq] == r.term[jq - nl]))))
+            return Sym(l.t, new)
         if isinstance(e.op, ast.Add) and isinstance(l.t, TBag) and isinstance(r.t, TBag):
             return self.bag_union(l, r, st)
         if isinstance(e.op, ast.Add) and isinstance(l.t, TBag) and isinstance(r.t, TSet) and l.t.elem == r.t.elem:
@@ -472,6 +479,7 @@ class Engine:
             if a == 'discard':
                 self.assign(f.value, Sym(t, Store(recv.term, args[0].term, False)), st); return NONE_SYM
         if isinstance(t, TSeq):
+            if a == 'copy' and not args: return Sym(t, recv.term)
             if a == 'append' and len(args) == 1 and args[0].t == t.elem:
                 new = Concat(recv.term, Unit(args[0].term)); kq = Const(fresh_name('ak'), IntSort()); n0 = Length(recv.term)
                 # theory-valid facts about the appended sequence, stated pointwise (the solver does not unfold seq.++ under quantifiers)
@@ -480,7 +488,14 @@ class Engine:
         if isinstance(t, TBag):
             if a == 'append':
                 v = args[0].term
-                self.assign(f.value, Sym(t, Store(recv.term, v, Select(recv.term, v) + 1)), st); return NONE_SYM
+                if isinstance(t.elem, TSeq):
+                    # bags of sequences: a fresh bag characterised by monotone facts instead of an array store - most goals need `no smaller than before` only,
+                    # and deciding whether two sequence-valued index terms are equal is what makes the solver unstable
+                    new = t.fresh('appended').term; u = Const(fresh_name('bu'), t.elem.sort()); old_ = recv.term
+                    st.pc.append(And(Select(new, v) == Select(old_, v) + 1, ForAll([u], Select(new, u) >= Select(old_, u), patterns=[Select(new, u)]),
+                                     ForAll([u], Implies(Select(new, u) > Select(old_, u), u == v), patterns=[Select(new, u)])))
+                else: new = Store(recv.term, v, Select(recv.term, v) + 1)
+                self.assign(f.value, Sym(t, new), st); return NONE_SYM
             if a in ('pop', 'popleft') and not args:
                 v = t.elem.fresh('pop')
                 self.oblige(st, 'pop from non-empty (no IndexError)', self.truthy(recv), e.lineno)
@@ -639,6 +654,9 @@ class Engine:
                 t = self.cur.ret
                 if not isinstance(t, (TSet, TBag, TSeq)): raise Unsupported('empty literal returned, contract return type is not a collection')
                 return [(st, ('return', t.empty()))]
+            if isinstance(s.value, ast.List) and len(s.value.elts) == 1 and self.is_empty_literal(s.value.elts[0]) and isinstance(self.cur.ret, TBag) \
+                    and isinstance(self.cur.ret.elem, TSeq):                                   # return [[]]: the list holding one empty list
+                rt = self.cur.ret; return [(st, ('return', Sym(rt, Store(rt.empty().term, rt.elem.empty().term, 1))))]
             if isinstance(s.value, ast.List) and isinstance(self.cur.ret, TSeq):        # a list literal returned as a sequence
                 els = [self.ev(x, st) for x in s.value.elts]; term = Unit(els[0].term)
                 for x in els[1:]: term = Concat(term, Unit(x.term))
